@@ -60,7 +60,8 @@ type c06RoleKey struct {
 	name     string // goes into oracle keys
 	kt       int    // Model/AuthGateRole.v keytype_of: 0 RSA, 1 P-256, 2 P-384, 3 P-521, 4 Ed25519, 5 one the endpoint must refuse
 	priv     crypto.Signer
-	pubRU    string // PKIX DER, base64 raw-url (the endpoint's pubkey parameter)
+	pubRU    string // PKIX DER, base64 raw-url (the role endpoints' pubkey parameter)
+	pubPEM   string // PKIX PEM (the pubkeyfile of /certgen/)
 	accepted bool   // by the documented strength rule: RSA >= 2048 bits, curves >= 255 bits, Ed25519
 }
 
@@ -72,7 +73,8 @@ func c06RoleNewKey(name string, kt int, accepted bool, priv crypto.Signer, err e
 	if err != nil {
 		panic(fmt.Sprintf("c06 role key %s: %v", name, err))
 	}
-	return c06RoleKey{name: name, kt: kt, priv: priv, pubRU: base64.RawURLEncoding.EncodeToString(der), accepted: accepted}
+	return c06RoleKey{name: name, kt: kt, priv: priv, pubRU: base64.RawURLEncoding.EncodeToString(der), accepted: accepted,
+		pubPEM: string(pem.EncodeToMemory(&pem.Block{Type: "PUBLIC KEY", Bytes: der}))}
 }
 
 func c06RoleKeys() []c06RoleKey {
@@ -123,6 +125,7 @@ type c06RoleServer struct {
 	withEd bool
 	p      *c06Prober
 	admin  *http.Cookie
+	alice  *http.Cookie
 	roleCA *x509.Certificate
 	mainCA *x509.Certificate
 	edCA   *x509.Certificate
@@ -195,6 +198,7 @@ func c06RoleServerNew(t *testing.T, p *c06Prober, mat *c06Material, fakes *c06Fa
 	}
 	s.p.seedProfiles()
 	s.admin = env.cookie("admin", AuthTypeU2F)
+	s.alice = env.cookie("alice", AuthTypeU2F)
 	if s.roleCA == nil || s.mainCA == nil || (withEd && (s.edCA == nil || st.Ed25519Signer == nil)) || (!withEd && (s.edCA != nil || st.Ed25519Signer != nil)) {
 		t.Fatalf("c06 role stage: signer state of daemon %s not as intended", s.name)
 	}
@@ -206,7 +210,7 @@ var c06RoleExtOID = []int{1, 3, 6, 1, 5, 5, 7, 1, 7}
 // a certificate a role endpoint handed out, and what the bytes say about it
 type c06RoleCert struct {
 	srv     *c06RoleServer
-	ep      int // 0 /v1/getRoleRequestingCert, 1 /v1/refreshRoleRequestingCert
+	ep      int // 0 /v1/getRoleRequestingCert, 1 /v1/refreshRoleRequestingCert, 2 /certgen/<user>?type=x509 (no netblock)
 	key     *c06RoleKey
 	cn      string
 	block   c06Block
@@ -219,7 +223,7 @@ type c06RoleCert struct {
 	coqName string
 }
 
-var c06RoleEPName = []string{"getRoleRequestingCert", "refreshRoleRequestingCert"}
+var c06RoleEPName = []string{"getRoleRequestingCert", "refreshRoleRequestingCert", "certgen-x509"}
 var c06RoleIssuerName = []string{"role-requesting CA", "main CA", "Ed25519 CA", "none of the daemon's CAs"}
 
 func c06RoleFirstCert(body []byte) *x509.Certificate {
@@ -283,12 +287,21 @@ func (rc *c06RoleCert) coq() string {
 		cs = append(cs, fmt.Sprintf("och %s %s %s", coqBool(c.len2), coqBool(c.role), coqBool(c.trusted)))
 	}
 	b := rc.block
-	return fmt.Sprintf("RCert %d %d %s %d [blk %d %d %d %d %d] true %s %d %s [%s]", rc.ep, rc.key.kt, coqBool(rc.srv.withEd), c06User(rc.cn),
-		b.base>>24, b.base>>16&255, b.base>>8&255, b.base&255, b.p, coqBool(rc.leaf != nil), rc.issuer, coqBool(rc.hasExt), strings.Join(cs, "; "))
+	blocks := fmt.Sprintf("[blk %d %d %d %d %d]", b.base>>24, b.base>>16&255, b.base>>8&255, b.base&255, b.p)
+	if rc.ep == 2 {
+		blocks = "[]"
+	}
+	// automation identity: the role endpoints only certify configured automation users; /certgen/ is asked for alice
+	return fmt.Sprintf("RCert %d %d %s %d %s %s %s %d %s [%s]", rc.ep, rc.key.kt, coqBool(rc.srv.withEd), c06User(rc.cn), blocks, coqBool(rc.ep != 2),
+		coqBool(rc.leaf != nil), rc.issuer, coqBool(rc.hasExt), strings.Join(cs, "; "))
 }
 
 func (rc *c06RoleCert) describe() string {
-	d := fmt.Sprintf("daemon=%s endpoint=%s key=%s identity=%s block=%s -> status=%d", rc.srv.name, c06RoleEPName[rc.ep], rc.key.name, rc.cn, rc.block, rc.status)
+	blk := rc.block.String()
+	if rc.ep == 2 {
+		blk = "none"
+	}
+	d := fmt.Sprintf("daemon=%s endpoint=%s key=%s identity=%s block=%s -> status=%d", rc.srv.name, c06RoleEPName[rc.ep], rc.key.name, rc.cn, blk, rc.status)
 	if rc.leaf != nil {
 		var cs []string
 		for i, ch := range rc.chains {
@@ -391,6 +404,23 @@ func c06RoleCertStage(t *testing.T, p *c06Prober, cfg c06Config, mat *c06Materia
 			}
 		}
 	}
+	// ---- the other issuer: POST /certgen/alice?type=x509 with alice's session, every kind of key, both daemons
+	for _, s := range servers {
+		for ki := range keys {
+			k := &keys[ki]
+			req := verifCertgenRequest("POST", "alice", "x509", k.pubPEM, nil, nil)
+			req.AddCookie(s.alice)
+			_, rr := s.p.serveRR(req)
+			rc := &c06RoleCert{srv: s, ep: 2, key: k, cn: "alice", status: rr.Code}
+			if rr.Code == 200 {
+				rc.leaf = c06RoleFirstCert(rr.Body.Bytes())
+			}
+			if rc.leaf != nil {
+				s.inspect(rc)
+			}
+			register(rc)
+		}
+	}
 	// ---- presentations
 	type rq struct {
 		method, path, key string
@@ -406,7 +436,7 @@ func c06RoleCertStage(t *testing.T, p *c06Prober, cfg c06Config, mat *c06Materia
 		{"GET", u2fSignRequestPath, "runtimeState.u2fSignRequest", false, true, false},
 	}
 	admittedInside := map[string]bool{}
-	wantInside := map[string]bool{}
+	wantInside := map[string]string{} // what must be witnessed -> the harness key that says it was not
 	for _, rc := range certs {
 		if rc.leaf == nil || len(rc.chains) == 0 {
 			continue
@@ -414,20 +444,28 @@ func c06RoleCertStage(t *testing.T, p *c06Prober, cfg c06Config, mat *c06Materia
 		s := rc.srv
 		st := s.p.env.state
 		masks := []int{AuthTypeIPCertificate, AuthTypeKeymasterX509, AuthTypeAny, AuthTypeIPCertificate | AuthTypeKeymasterX509, s.p.webui | AuthTypeKeymasterX509}
-		for _, pos := range []string{"inside", "outside"} {
+		positions := []string{"inside", "outside"}
+		if rc.ep == 2 {
+			positions = []string{"anywhere"} // a user certificate carries no netblock
+		}
+		for _, pos := range positions {
 			addr := c06RoleInside(rc.block, rng)
 			if pos == "outside" {
 				addr = c06RoleOutside(rc.block, rng)
 			}
-			inside := rc.block.holds(addr) // the oracle's own arithmetic
-			if inside != (pos == "inside") {
+			inside := rc.ep != 2 && rc.block.holds(addr) // the oracle's own arithmetic
+			if rc.ep != 2 && inside != (pos == "inside") {
 				t.Fatalf("c06 role stage: address %s not %s %s", c06V4(addr), pos, rc.block)
 			}
 			remote := c06V4(addr) + ":4711"
 			peer := c06PeerCoq(remote)
+			blkName := rc.block.String()
+			if rc.ep == 2 {
+				blkName = "no block"
+			}
 			what := fmt.Sprintf("certificate of %s (%s key, daemon %s, signed by the %s, address extension %v for %s, verified chains %d) presented from %s (%s)",
-				c06RoleEPName[rc.ep], rc.key.name, s.name, c06RoleIssuerName[rc.issuer], rc.hasExt, rc.block, len(rc.chains), c06V4(addr), pos)
-			desc := map[string]interface{}{"daemon": s.name, "endpoint": c06RoleEPName[rc.ep], "key_type": rc.key.name, "identity": rc.cn, "netblock": rc.block.String(),
+				c06RoleEPName[rc.ep], rc.key.name, s.name, c06RoleIssuerName[rc.issuer], rc.hasExt, blkName, len(rc.chains), c06V4(addr), pos)
+			desc := map[string]interface{}{"daemon": s.name, "endpoint": c06RoleEPName[rc.ep], "key_type": rc.key.name, "identity": rc.cn, "netblock": blkName,
 				"signed_by": c06RoleIssuerName[rc.issuer], "address_extension": rc.hasExt, "peer": c06V4(addr), "position": pos, "certificate": rc.describe()}
 			// -- checkAuth directly
 			for mi, mask := range masks {
@@ -453,6 +491,13 @@ func c06RoleCertStage(t *testing.T, p *c06Prober, cfg c06Config, mat *c06Materia
 						d[k] = v
 					}
 					observed := map[string]interface{}{"admitted": adm == 1, "user": uname, "level": level, "status": code}
+					if rc.ep == 2 && mask == AuthTypeKeymasterX509 && method == "POST" {
+						lk := rc.key.name + " on checkAuth(KeymasterX509) as a user certificate of /certgen/"
+						wantInside[lk] = "C06:harness:user-cert-not-admitted:" + rc.key.name
+						if adm == 1 && uname == rc.cn && level == AuthTypeKeymasterX509 {
+							admittedInside[lk] = true
+						}
+					}
 					if rc.hasExt && adm == 1 && level&AuthTypeKeymasterX509 != 0 {
 						hit(verifHit{Key: fmt.Sprintf("C06:role-cert-as-plain-keymaster:%s:%s", rc.key.name, pos), Oracle: "a certificate that carries the address delegation extension is taken for a plain keymaster certificate",
 							What: fmt.Sprintf("checkAuth(mask=%d) %s: %s -> admitted as %q at level %d (KeymasterX509 bit set)", mask, method, what, uname, level), Case: d, Observed: observed})
@@ -493,7 +538,7 @@ func c06RoleCertStage(t *testing.T, p *c06Prober, cfg c06Config, mat *c06Materia
 				}
 				if inside && q.live && rc.key.accepted {
 					lk := rc.key.name + " on " + q.key
-					wantInside[lk] = true
+					wantInside[lk] = "C06:harness:role-cert-not-admitted-inside:" + rc.key.name
 					if obs.user == rc.cn && obs.effects&c06EffSigned != 0 {
 						admittedInside[lk] = true
 					}
@@ -509,10 +554,10 @@ func c06RoleCertStage(t *testing.T, p *c06Prober, cfg c06Config, mat *c06Materia
 		}
 	}
 	// liveness: from inside its block a role certificate of every accepted key type works where IP certificates are taken
-	for lk := range wantInside {
+	for lk, hk := range wantInside {
 		if !admittedInside[lk] {
-			hit(verifHit{Key: "C06:harness:role-cert-not-admitted-inside:" + strings.SplitN(lk, " ", 2)[0], Oracle: "harness", Kind: "harness",
-				What: "no role certificate of this key type, presented from inside its netblock with its verified chain, obtained signed material: " + lk, Case: lk})
+			hit(verifHit{Key: hk, Oracle: "harness", Kind: "harness",
+				What: "no certificate of this key type, presented with its verified chain (a role certificate from inside its netblock), was let in where it must be: " + lk, Case: lk})
 		}
 	}
 	c06RoleRealTLS(servers, certs, thorough, res, hit)
